@@ -344,9 +344,8 @@ class XMLParserMixin(
         # track inline content
         if self.incontent and not self.contentparams.get("type", "xml").endswith("xml"):
             # element declared itself as escaped markup, but it isn't really
-            if tag in ("xhtml:div", "div"):
-                return  # typepad does this 10/2007
-            self.contentparams["type"] = "application/xhtml+xml"
+            if tag not in ("xhtml:div", "div"):  # typepad does this 10/2007
+                self.contentparams["type"] = "application/xhtml+xml"
         if self.incontent and self.contentparams.get("type") == "application/xhtml+xml":
             tag = tag.split(":")[-1]
             self.handle_data("</%s>" % tag, escape=0)
